@@ -5,12 +5,15 @@ KS-1   digit loops (`for di in 0..dsize`): the limbs of the operand are selected
 SIGN-3 (C03) the Galois-element helpers compute in (Z/2NZ)* with the cyclotomic order
 WR-4   (C03/C04) vmp kernels with a limb offset zero-fill the limbs they do not write
 SC-3   (shared, not re-run here) accumulators of multi-digit products are zeroed before the first reduced-size product
+RAD-1 / RAD-2 (rad.py; C03 / C04 / C05) cross-radix conversions are decided by the comparison of the radices they convert between; radix-asserting operations are not
+       called with operands the dominating guards make different
 CMUX-1 (C04) cmux forms: the operand added back after the product is the subtrahend of the difference that was multiplied (res = (t - f) * s + f)
 """
 from . import facts, sc, pwl
 from .cfg import CFG, Flow
 from .sym import Sym, Poly
 
+RAD_PREFIXES = ("poulpy_core::keyswitching", "poulpy_core::automorphism", "poulpy_core::glwe_trace", "poulpy_core::glwe_packing", "poulpy_core::glwe_packer", "poulpy_core::conversion")
 SELECT = ("vec_znx_dft_copy", "vec_znx_dft_apply")
 VT = ("deref", "deref_mut", "borrow", "borrow_mut", "as_mut", "as_ref", "into", "from", "clone", "to_ref", "to_mut", "data", "data_mut")
 
@@ -150,6 +153,8 @@ def run(res, tier):
     res.rule("KS-1", "digit loops: step == dsize and offset + limb_offset == dsize - 1 on every path")
     res.rule("SIGN-3", "the Galois-element helpers use the ring degree only as 2 * n() / cyclotomic_order()")
     res.rule("WR-4", "raw-slice vmp kernels taking limb_offset: the zero fill starts one stride after the last written limb")
+    res.rule("RAD-1", "a cross-radix conversion skipped / taken on a radix comparison is guarded by the comparison of exactly its input and output radices")
+    res.rule("RAD-2", "no call of an operation asserting equal radices of two arguments sits on a branch whose guards imply that they differ")
     res.assumptions = ["vec_znx_dft_copy / vec_znx_dft_apply select limbs offset, offset + step, ...; vmp accumulates at limb_offset (C07)", "zeroed accumulators of multi-digit products: SC-3 under C12"]
     cfgs = ["avx-dev"] if tier == "quick" else ["avx-dev", "ref-dev"]
     for cfg in cfgs:
@@ -163,4 +168,9 @@ def run(res, tier):
         from .c11 import wr4
         n4 = wr4(p, res)
         res.floor("WR-4", "limb_offset kernels", n4, 2)
+        from . import rad
+        nr1 = rad.rad1(p, res, RAD_PREFIXES)
+        res.floor("RAD-1", "guarded radix conversions of the key-switching family", nr1, 14)
+        nr2 = rad.rad2(p, res, RAD_PREFIXES)
+        res.floor("RAD-2", "calls of radix-asserting operations", nr2, 16)
         res.fn_count += n + n3
